@@ -325,9 +325,9 @@ func c08Run(p *Plan, x *Ctx, out *Outcome) {
 					}
 					n := o.J
 					if x.Replay {
-						// replays draw up to 100 times as many values (stopping at the first bad one): should the
+						// replays draw up to 400 times as many values (stopping at the first bad one): should the
 						// code under test have brought its own, unseeded random source, reproduction is statistical
-						n *= 100
+						n *= 400
 					}
 					func() {
 						defer func() {
